@@ -221,6 +221,26 @@ func checkC02(c *core.Ctx) {
 		c.Count("limit_cases", 1)
 	})
 
+	// ordinary values written with huge numerals (n*k)/(d*k), the larger numeral just below 2^54, 2^60, 2^63, 2^64
+	type hn struct{ n, d uint64 }
+	hbases := []hn{{3, 2}, {1, 1}, {1, 2}, {5, 4}, {7, 8}, {2, 3}, {1, 64}, {9, 1}}
+	hbits := []uint{54, 60, 63, 64}
+	c.Stream("hugenumerals", len(hbases)*len(hbits)*2, func(i int, r *rand.Rand) {
+		b := hbases[i%len(hbases)]
+		bits := hbits[(i/len(hbases))%len(hbits)]
+		top := uint64(1)<<(bits-1) - 1 + uint64(1)<<(bits-1) // 2^bits - 1 without overflow
+		k := top/max(b.n, b.d) - uint64(r.Intn(1000))
+		big1 := []model.Frac{{Num: b.n * k, Den: b.d * k}}
+		var p model.Piece
+		if i >= len(hbases)*len(hbits) {
+			p.Inst = []model.Instance{{Values: big1}, {Chord: chord(r), Values: append(append([]model.Frac{}, big1...), model.Frac{Num: 1, Den: 4})}, {Chord: chord(r), Values: one()}}
+		} else {
+			p.Inst = []model.Instance{{Chord: chord(r), Values: big1}, {Values: big1}, {Chord: chord(r), Values: big1}}
+		}
+		judgeTiming(c, "hugenumerals", i, p, model.Flags{}, writeOpts{}, "")
+		c.Count("hugenumeral_cases", 1)
+	})
+
 	// adversarial near-halfway values: exact tick count within 1e-9 of k+1/2 but not equal
 	near := nearHalfValues()
 	c.Stream("nearhalf", len(near), func(i int, r *rand.Rand) {
